@@ -2,6 +2,7 @@
 import math
 
 import numpy as np
+import pandas as pd
 from hypothesis import strategies as st
 from scipy.stats import rankdata
 
@@ -80,6 +81,8 @@ def series_case(draw, tier):
     return {"n": n, "mag": mag, "spread": spread, "z": z, "e": e,
             "noise": noise, "negative": negative, "trans": tr,
             "ens_e": ens_e, "cont": cont,
+            "container": draw(st.sampled_from(["ndarray", "ndarray", "list",
+                                               "series", "strided"])),
             "btype": draw(st.sampled_from(["standard", "normalised", "log"])),
             "ctype": draw(st.sampled_from(["Pearson", "Spearman"])),
             "cstat": draw(st.sampled_from(["mean", "median"])),
@@ -165,10 +168,26 @@ def series_oracle(case):
     tol = 1e-9
     info = f"trans={case['trans']}"
 
-    # ---- definition on the transformed series
-    got = {"nse": metrics.nse(obs, sim, trans),
-           "kge": metrics.kge(obs, sim, trans),
-           "bias": metrics.bias(obs, sim, trans, type=btype)}
+    # ---- definition on the transformed series (inputs passed as arrays,
+    # pandas series or strided views; lists where the transform accepts them)
+    cont = case.get("container", "ndarray")
+    if cont == "list" and case["trans"]["name"] != "Identity":
+        cont = "ndarray"
+
+    def W(a):
+        if cont == "list":
+            return a.tolist()
+        if cont == "series":
+            return pd.Series(a)
+        if cont == "strided":
+            big = np.zeros(2 * len(a))
+            big[::2] = a
+            return big[::2]
+        return a
+    labels.append(f"container:{cont}")
+    got = {"nse": metrics.nse(W(obs), W(sim), trans),
+           "kge": metrics.kge(W(obs), W(sim), trans),
+           "bias": metrics.bias(W(obs), W(sim), trans, type=btype)}
     for k, v in ref.items():
         same(float(got[k]), v, tol, f"{k}(obs, sim, trans) vs definition",
              info)
@@ -193,6 +212,10 @@ def series_oracle(case):
         cv = metrics.corr(obs, ens, trans, stat=case["cstat"],
                           type=case["ctype"])
         same(float(cv), rc, 1e-9, "corr vs definition", info)
+        if ens.shape[1] == 1:
+            cv1 = metrics.corr(obs, ens[:, 0].copy(), trans,
+                               stat=case["cstat"], type=case["ctype"])
+            same(float(cv1), rc, 1e-9, "corr with a 1-D simulation", info)
         if abs(cv) > 1 + 1e-12:
             raise Violation(f"|corr| > 1: {cv}")
 
